@@ -73,14 +73,18 @@ func (c *Client) IsClosed() bool {
 // has already performed the portal handshake.
 func (c *Client) Handshake() error {
 	for {
+		verifYield("cl.hs.load")
 		switch c.state.Load() {
 		case clientStateCreated:
+			verifYield("cl.hs.cas")
 			if !c.state.CompareAndSwap(clientStateCreated, clientStateHandshaking) {
 				continue
 			}
 
+			verifYield("cl.hs.run")
 			err := c.clientHandshakeLocked()
 			if err != nil {
+				verifYield("cl.hs.store")
 				// Store the error before publishing clientStateError so concurrent callers cannot observe an uninitialized result.
 				c.err = err
 				if c.state.CompareAndSwap(clientStateHandshaking, clientStateError) {
@@ -88,8 +92,10 @@ func (c *Client) Handshake() error {
 					c.ss = nil
 				}
 			}
+			verifYield("cl.hs.signal")
 			close(c.handshakeDone)
 
+			verifYield("cl.hs.recheck")
 			// Recheck after completion because Close may have changed the state while the handshake was running.
 			state := c.state.Load()
 			if state == clientStateClosing || state == clientStateClosed {
@@ -97,6 +103,7 @@ func (c *Client) Handshake() error {
 			}
 			return err
 		case clientStateHandshaking:
+			verifYield("cl.hs.wait")
 			<-c.handshakeDone
 		case clientStateOpen:
 			return nil
@@ -212,7 +219,9 @@ func (c *Client) clientHandshakeLocked() error {
 	// we should have a DialContext.
 	c.underlyingConn.SetReadDeadline(time.Time{})
 	c.ss.handle = newHandleForSession(c.underlyingConn, c.ss, c.config.Leaf, c.config.maxBufferedPackets())
+	verifYield("cl.hs.add")
 	c.wg.Add(1)
+	verifYield("cl.hs.open")
 	if !c.state.CompareAndSwap(clientStateHandshaking, clientStateOpen) {
 		c.wg.Done()
 		return io.EOF
@@ -619,12 +628,16 @@ func (c *Client) SetWriteDeadline(t time.Time) error {
 func (c *Client) Close() error {
 	var previous uint32
 	for {
+		verifYield("cl.close.load")
 		previous = c.state.Load()
 		switch previous {
 		case clientStateClosing, clientStateClosed:
+			verifYield("cl.close.waitdone")
 			<-c.closeDone
+			verifYield("cl.close.ret")
 			return c.closeErr
 		default:
+			verifYield("cl.close.cas")
 			if c.state.CompareAndSwap(previous, clientStateClosing) {
 				goto closing
 			}
@@ -634,17 +647,23 @@ func (c *Client) Close() error {
 closing:
 	// Closing the underlying connection is what guarantees that an in-flight
 	// handshake, read, or write cannot prevent Close from completing.
+	verifYield("cl.close.conn")
 	c.closeErr = c.underlyingConn.Close()
 
 	if previous == clientStateHandshaking {
+		verifYield("cl.close.waiths")
 		<-c.handshakeDone
 	}
+	verifYield("cl.close.wgwait")
 	c.wg.Wait()
+	verifYield("cl.close.handle")
 	if c.ss != nil && c.ss.handle != nil {
 		_ = c.ss.handle.Close()
 	}
 
+	verifYield("cl.close.store")
 	c.state.Store(clientStateClosed)
+	verifYield("cl.close.signal")
 	close(c.closeDone)
 	return c.closeErr
 }
